@@ -345,12 +345,12 @@ fn make_field(rng: &mut Rng, name: String, declared: &[Declared], self_name: Opt
         // the derive macro recognises options by spelling only
         match rng.below(6) {
             0 => {
-                ty_src = format!("std::option::Option<{inner}>");
+                ty_src = format!("{}std::option::Option<{inner}>", if refmodel::rng::fnv64_str(&name) % 2 == 0 { "::" } else { "" });
                 opt_by_name = true;
                 tags.push("option_std_path".into());
             }
             1 => {
-                ty_src = format!("core::option::Option<{inner}>");
+                ty_src = format!("{}core::option::Option<{inner}>", if refmodel::rng::fnv64_str(&name) % 2 == 1 { "::" } else { "" });
                 opt_by_name = true;
                 tags.push("option_core_path".into());
             }
@@ -563,7 +563,19 @@ pub fn history_version_decl(h: &History, k: usize, name: &str) -> RecordDecl {
                     f.default.as_ref().map(|d| placeholder_default_expr(&ty_at_addition[&f.name], d)),
                 )
             };
-            FieldDecl { name: f.name.clone(), ty_src: ty.clone(), ty_canon: ty, opt_by_name: f.opt_by_name, transient_expr, added_default_expr }
+            // the derive macro recognises options by spelling: fields that a FieldMadeOptional step refers to are
+            // spelled in every form it accepts
+            let ty_src = match ty.strip_prefix("Option<") {
+                Some(rest) if f.opt_by_name => match refmodel::rng::fnv64_str(&format!("{}/{}/{k}", h.id, f.name)) % 8 {
+                    0 => format!("::std::option::Option<{rest}"),
+                    1 => format!("::core::option::Option<{rest}"),
+                    2 => format!("std::option::Option<{rest}"),
+                    3 => format!("core::option::Option<{rest}"),
+                    _ => ty.clone(),
+                },
+                _ => ty.clone(),
+            };
+            FieldDecl { name: f.name.clone(), ty_src, ty_canon: ty, opt_by_name: f.opt_by_name, transient_expr, added_default_expr }
         })
         .collect();
     RecordDecl { name: name.to_string(), fields, steps: schema.steps.clone() }
